@@ -20,7 +20,9 @@ def grid(M, im_max=None, is_vals=(0, 1, 2, 3)):
                 for im in range(0, mx):
                     if im_max is not None and im > im_max:
                         continue
-                    for is_ in ((0,) if im <= 1 else is_vals):
+                    # init_max_silence only matters once an initial phase is configured (init_min > 1): for init_min 0 / 1
+                    # one large value stands for "given but irrelevant"
+                    for is_ in ((0, mx + 1) if im <= 1 else is_vals):
                         for mode in MODES:
                             out.append((mn, mx, ms, im, is_, mode))
     return out
